@@ -270,7 +270,7 @@ fn eval_sc(case: &Case) -> Verdict {
     v.label("do_while");
     v.label(if must { "do_while_must" } else { "do_while_may_only" });
     v.label(&format!("awaits{}", p.count(|o| matches!(o, Op::Await { .. }))));
-    v.detail = serde_json::json!({"U": set_str(&br.u.outcomes), "Ry": set_str(&r.outcomes), "L": set_str(&l), "must_direction": must,
+    v.detail = serde_json::json!({"U": set_str(&br.u.outcomes), "Ry": set_str(&r.outcomes), "Ry_robust": set_str(&r.robust_outcomes), "L": set_str(&l), "must_direction": must,
         "reference": "R-AX U / R-SC with yield semantics", "loom": {"iterations": run.report.iters, "panic": run.report.panic}});
     v.nontrivial = r.outcomes.len() >= 2;
     if br.u.outcomes.is_empty() || r.outcomes.is_empty() || r.deadlock {
@@ -287,10 +287,15 @@ fn eval_sc(case: &Case) -> Verdict {
         return v.fail("forbidden_outcome", format!("values read around the loop that C11/RC11 forbids: {}", fmt_outcome(x)));
     }
     if must {
-        let missing: Vec<&Outcome> = r.outcomes.iter().filter(|x| !l.contains(*x)).collect();
+        // (outcomes that need the yielding thread placed between two operations of the writer
+        // neither of which it conflicts with are the recorded finding F13: only the robust ones are demanded)
+        let missing: Vec<&Outcome> = r.robust_outcomes.iter().filter(|x| !l.contains(*x)).collect();
+        if r.robust_outcomes.len() < r.outcomes.len() {
+            v.label("class:nonrobust_yield_placement");
+        }
         if let Some(m) = missing.first() {
             v.detail["missing"] = serde_json::json!(missing.iter().map(|o| fmt_outcome(o)).collect::<Vec<_>>());
-            return v.fail("missing_outcome", format!("an exit outcome of the do-while loop is never explored: {}; {} of {} missing", fmt_outcome(m), missing.len(), r.outcomes.len()));
+            return v.fail("missing_outcome", format!("an exit outcome of the do-while loop is never explored: {}; {} of {} missing", fmt_outcome(m), missing.len(), r.robust_outcomes.len()));
         }
     }
     v
